@@ -19,6 +19,8 @@ pub const SITE_GET_CHANGED: u8 = 3;
 pub const SITE_MARK_UNCHANGED: u8 = 4;
 /// `ChangeMarker::mark_changed()` is about to set a changed flag
 pub const SITE_MARK_CHANGED: u8 = 5;
+/// `ResultItem<AnnotationSubStore>::save()` is about to write the file of a sub-store
+pub const SITE_SAVE_SUBSTORE: u8 = 6;
 
 static YIELD_CALLBACK: RwLock<Option<fn(u8)>> = RwLock::new(None);
 
